@@ -12,7 +12,7 @@ CONSTANTS
   PbPols = {0, 1}
   PbNeg = 2
   PbPos = 3
-  PbBound = 5
+  PbBound = 4
   PbOps = {">=", "<=", ">", "<", "="}
   MaxMgrs = 1
   MaxPosts = 1
